@@ -983,7 +983,7 @@ class Application():
                 if response:
                     return response
                 return internal_server_error(req)
-            except Exception:  # pylint: disable=broad-except
+            except BaseException:  # pylint: disable=broad-except
                 return internal_server_error(req)
         elif status_code in default_states:
             handler = default_states[status_code][METHOD_GET]
@@ -1016,7 +1016,7 @@ class Application():
                 return to_response(
                         self.state_from_table(req, status_code, **kwargs))
 
-            except Exception:  # pylint: disable=broad-except
+            except BaseException:  # pylint: disable=broad-except
                 return internal_server_error(req)
         return None
 
